@@ -298,6 +298,10 @@ package geojson
 //@   requires g != nil && WriteInv(g)
 
 // ---- who establishes WriteInv: the constructors (and the Point parser, whose coordinate decoding is under contract)
+//@ lemma ownsFirst(ex *extra)
+//@   props C05 C17
+//@   requires ex.dims >= 0 && len(ex.values) >= ex.dims
+//@   ensures owns(ex, 0, 1)
 //@ lemma ownsOne(ex *extra)
 //@   props C05 C17
 //@   requires ex.dims == 1 && len(ex.values) >= 1
